@@ -45,8 +45,9 @@ META = {
     "assumptions": ["svdstf: Umeyama scale above mat2Sim3's rank threshold atol=1e-5 and sources not all equal (otherwise the code raises / divides by zero; "
                     "outside the property's quantifier)",
                     "ICP basin clause: the initial nearest-neighbour assignment is the true correspondence (hypothesis of icp_recovers)"],
-    "partial": ["EPnP recovery from exact projections is not modelled (six-stage pipeline of external kernels): ground-truth comparison on "
-                "generated scenes only (sampling)",
+    "partial": ["EPnP: only the tail (_compute_scale, _compute_solution) is modelled and proved (epnp_compute_scale_exact, epnp_tail_exact; stream "
+                "epnp_scale); the head (control basis, alpha solve, eig null space, lstsq beta candidates, GN refinement, candidate selection) is a "
+                "pipeline of external kernels: ground-truth comparison on generated scenes only (sampling)",
                 "floating-point accuracy of the returned transform rides on the correspondence tolerances (theorems are over the reals); "
                 "unit norm of the returned quaternion is checked to 32 eps (not re-normalised product of float SVD factors), EPnP accuracy "
                 "against empirical tier tolerances (>= 50 x the worst of 20 000 clean scenes per tier)",
@@ -2173,6 +2174,123 @@ def run_lifecycles(ctx: Ctx, n_icp: int, n_epnp: int):
         drive_alternately([(icp_lifecycle if h["kind"] == "icp_life" else epnp_lifecycle)(ctx, h) for h in pair])
 
 
+
+# ----------------------------------------------------------------------------- EPnP tail (`_compute_scale`): model correspondence
+
+def epnp_scale_spec(r: random.Random, **kw) -> dict:
+    spec = {"kind": "epnp_scale", "seed": r.randrange(1 << 30), "N": r.choice([4, 6, 6, 7, 12, 30, 100]), "exact": r.random() < 0.6,
+            "lam": r.choice([1.0, -1.0, 0.01, -0.01, 37.0, -250.0, 1e-4, -1e4]), "lead": r.choice([(), (), (4,), (4, 2), (1,), (3,)]),
+            "extent": r.choice([1.0, 1.0, 0.1, 30.0]), "dtype": r.choice(["float64", "float64", "float32"])}
+    spec.update(kw)
+    return spec
+
+
+def epnp_scale_data(spec, b):
+    """one item: world control points, barycentric weights (rows sum to 1), points, camera pose, control points handed to
+    `_compute_scale` (exact up to the factor `lam`, or arbitrary)"""
+    r = random.Random(spec["seed"] + 7001 * b)
+    N, ext = spec["N"], spec["extent"]
+    Cw = [[r.gauss(0, 1) * ext for _ in range(3)] for _ in range(4)]
+    alpha = []
+    for _ in range(N):
+        w = [r.uniform(-1.0, 1.5) for _ in range(3)]
+        alpha.append(w + [1.0 - sum(w)])
+    pts = [[sum(alpha[i][j] * Cw[j][k_] for j in range(4)) for k_ in range(3)] for i in range(N)]
+    q = U.rand_quat(r, r.choice(["uniform", "pi", "small", "identity"]))
+    R = U.q_to_mat(q)
+    rad = max(math.sqrt(sum(v * v for v in p)) for p in pts + Cw) + 1e-300
+    t = [r.uniform(-0.3, 0.3) * rad, r.uniform(-0.3, 0.3) * rad, rad * r.choice([1.5, 3.0, 8.0])]
+    cam = lambda p: [U.mat_vec(R, p)[k_] + t[k_] for k_ in range(3)]     # noqa: E731
+    lam = spec["lam"] * (1.0 if b % 2 == 0 else -1.0 if spec["lead"] else 1.0)
+    if spec["exact"]:
+        bases = [[lam * v for v in cam(c)] for c in Cw]
+    else:
+        bases = [[r.gauss(0, 1) * ext + (2.0 * ext if k_ == 2 else 0.0) * r.choice([1, 1, -1]) for k_ in range(3)] for _ in range(4)]
+    return {"Cw": Cw, "alpha": alpha, "pts": pts, "q": q, "t": t, "bases": bases, "lam": lam, "cam": [cam(p) for p in pts]}
+
+
+def check_epnp_scale_gen(ctx: Ctx, spec):
+    P = pp()
+    case = dict(spec)
+    dt = getattr(torch, spec["dtype"])
+    eps = common.EPS[spec["dtype"]]
+    lead = tuple(spec["lead"])
+    nbi = int(math.prod(lead)) if lead else 1
+    items = [epnp_scale_data(spec, b) for b in range(nbi)]
+    N = spec["N"]
+    Bt, B64 = U.to_dtype([sum(it["bases"], []) for it in items], spec["dtype"])
+    At, A64 = U.to_dtype([it["alpha"] for it in items], spec["dtype"])
+    Pt, P64 = U.to_dtype([it["pts"] for it in items], spec["dtype"])
+    try:
+        with warnings.catch_warnings():
+            warnings.simplefilter("ignore")
+            out = P.module.EPnP._compute_scale(Bt.reshape(lead + (12,)), At.reshape(lead + (N, 4)), Pt.reshape(lead + (N, 3)))
+    except Exception as e:  # noqa: BLE001
+        ctx.fail(case, f"raises: EPnP._compute_scale raises {type(e).__name__}: {str(e)[:100]} (lead {lead}, N={N})")
+        return False
+    ok = True
+    if not (isinstance(out, tuple) and len(out) == 3 and tuple(out[0].shape) == lead + (4, 3) and tuple(out[1].shape) == lead + (N, 3)
+            and tuple(out[2].shape) == lead + (1,) and out[1].dtype == dt):
+        ctx.fail(case, f"type: EPnP._compute_scale returned shapes {[tuple(getattr(o, 'shape', ())) for o in out]} for lead {lead}, N={N}")
+        return False
+    ob = out[0].detach().double().reshape(nbi, 12)
+    op = out[1].detach().double().reshape(nbi, N, 3)
+    os_ = out[2].detach().double().reshape(nbi)
+    lines = [f"c17.epnp_scale {N} " + common.wire_list(B64[b].tolist() + A64[b].flatten().tolist() + P64[b].flatten().tolist()) for b in range(nbi)]
+    reps = yield lines
+    for b, rep in enumerate(reps):
+        it = items[b]
+        stt, payload = common.parse_reply(rep)
+        if stt == "err":
+            raise InfraError(f"C17 driver (epnp_scale) failed: {payload}")
+        mv = [float(common.from_wire(t_)) for t_ in payload]
+        mb, mp_, ms, minz = mv[0:12], mv[12:12 + 3 * N], mv[12 + 3 * N], mv[13 + 3 * N]
+        cid = dict(case, item=b)
+        D = max(max(abs(v) for v in mp_), 1e-300)
+        # conditioning of scale = <dc,dw>/<dc,dc>: both cloud spreads are computed after centring
+        cent = 1 + float(P64[b].abs().max()) / (float((P64[b] - P64[b].mean(0)).norm(dim=-1).mean()) + 1e-300)
+        tol = 64 * eps * cent * N ** 0.5
+        if minz <= 64 * eps * D * cent:
+            ctx.count("epnp_scale.sign-at-threshold-skipped")
+            continue
+        ctx.count("epnp_scale.items")
+        es = abs(float(os_[b]) - ms) / max(abs(ms), 1e-300)
+        ep = max(abs(a - c_) for a, c_ in zip(op[b].flatten().tolist(), mp_)) / D
+        eb = max(abs(a - c_) for a, c_ in zip(ob[b].tolist(), mb)) / max(max(abs(v) for v in mb), 1e-300)
+        track(f"epnp_scale.{spec['dtype']}", max(es, ep, eb), tol)
+        if not (es <= tol and ep <= tol and eb <= tol):
+            ctx.disagree("epnp.scale", cid, f"_compute_scale {spec['dtype']}: scale / points / bases differ from the model by {es:.3e} / {ep:.3e} / {eb:.3e} "
+                                            f"(relative) > {tol:.3e}")
+            ok = False
+        if spec["exact"]:
+            # the law itself (theorem epnp_compute_scale_exact): camera-frame points and 1/lam are recovered
+            cam = torch.tensor(it["cam"], dtype=torch.float64)
+            Dc = float(cam.abs().max())
+            res = float((op[b] - cam).abs().max()) / Dc
+            rs = abs(float(os_[b]) * it["lam"] - 1.0)
+            ctx.count("epnp_scale.exact")
+            if not (res <= 4 * tol and rs <= 4 * tol):
+                ctx.fail(cid, f"epnp-scale: control points exact up to the factor {it['lam']}: _compute_scale misses the camera-frame points by {res:.3e} "
+                              f"(relative) and returns scale·lam = {float(os_[b]) * it['lam']!r} (allowance {4 * tol:.2e}; N={N}, lead {lead})")
+                ok = False
+    return ok
+
+
+def run_epnp_scale(ctx: Ctx, n: int):
+    fixed = random.Random(2718)
+    specs = [epnp_scale_spec(fixed, N=N_, exact=True, lam=l_, lead=ld, dtype=d_) for N_, l_, ld, d_ in
+             ((6, 1.0, (), "float64"), (6, -1.0, (), "float64"), (4, -0.01, (4,), "float64"), (12, 37.0, (4, 2), "float32"),
+              (100, -250.0, (3,), "float64"), (7, 1e-4, (1,), "float32"), (3, -1e4, (4, 3), "float64"))]
+    specs += [epnp_scale_spec(fixed, exact=False, lead=(4,), N=8), epnp_scale_spec(fixed, exact=False, lead=(), N=30, dtype="float32")]
+    specs += [epnp_scale_spec(ctx.rng) for _ in range(n)]
+    gens = []
+    for sp in specs:
+        ctx.note_case(("epnp_scale", sp["N"], sp["exact"], sp["lam"], tuple(sp["lead"]), sp["dtype"]), True)
+        ctx.count(f"epnp_scale.{'exact' if sp['exact'] else 'arbitrary'}")
+        gens.append(check_epnp_scale_gen(ctx, sp))
+    drive(ctx, gens)
+
+
 # ----------------------------------------------------------------------------- entry points
 
 def run(ctx: Ctx):
@@ -2187,6 +2305,7 @@ def run(ctx: Ctx):
     run_icp(ctx, specs)
     especs = epnp_corner_specs() + [epnp_spec(rng) for _ in range(ctx.pick(60, 3000))]
     run_epnp(ctx, especs)
+    run_epnp_scale(ctx, ctx.pick(40, 1500))
     run_histories(ctx, ctx.pick(6, 70), ctx.pick(5, 60))
     run_lifecycles(ctx, ctx.pick(6, 70), ctx.pick(5, 60))
     ctx.notes.append("largest error/tolerance ratios: " + ", ".join(f"{k}={v:.3g}" for k, v in sorted(RATIOS.items())))
@@ -2228,6 +2347,9 @@ def replay(ctx: Ctx, case) -> bool:
         c.pop("kind")
         c.pop("call", None)
         check_epnp_case(ctx, c)
+    elif kind == "epnp_scale":
+        c.pop("item", None)
+        drive(ctx, [check_epnp_scale_gen(ctx, c)])
     elif kind in ("icp_life", "epnp_life"):
         spec = {k2: v for k2, v in c.items() if k2 in ("kind", "seed", "stepper", "ctor_init", "dtype", "nsteps", "passes", "sizes", "refine", "ctorK")}
         drive_alternately([(icp_lifecycle if kind == "icp_life" else epnp_lifecycle)(ctx, spec)])
